@@ -10,6 +10,11 @@ Inductive case :=
 | CCtr (key iv : list Z) (offset : Z) (src got : list Z)
 | CVerify (wins : list (Z * Z * list Z * list Z))      (* offset, limit, hash, what a whole-window fetch returns *)
           (offset limit : Z) (data : list Z) (ok : bool) (out : list Z)
+| CWalk (p : Z) (requests : list (Z * Z)) (lens : list Z)
+    (* a single-threaded streaming download through the CDN: every getCdnFile request (offset, limit) in
+       order and the length of every answer: the requests must be those of walking the plans of the chunks
+       0, p, 2p, ... (stop a chunk at the first short answer, stop everything at an over-long answer or a
+       short chunk) *)
 | CTrunc (size window p covered : Z)   (* an accepted incomplete download: length of the gap-free genuine prefix *)
 | CVq (hash : list Z) (limit : Z) (data : list Z) (accepted : bool)    (* verifier.verify *)
 | CQueue (pre : list (Z * Z))                           (* hashes given to newVerifier: offset, limit *)
@@ -56,6 +61,8 @@ Definition ok (c : case) : bool :=
       end
   | CCtr key iv offset src got => check_ctr key iv offset src got
   | CVerify wins offset limit data okv out => check_verify wins offset limit data okv out
+  | CWalk p requests lens =>
+      list_eqb z2_eqb (walk_download (S (length lens)) p 0 lens) requests
   | CTrunc size window p covered =>
       (* C34_complete_partial + C34_empty_accepted: an accepted short chunk ends at the nominal end of a
          hash window, an accepted empty chunk at a part boundary; nowhere else *)
